@@ -62,6 +62,7 @@ class Ctx:
         self.outcomes = set()
         self.axes = {}
         self.violations = []  # dicts: case, focus, oracle, sig, msg
+        self.viol_counts = {}
         self.samples = []
         self._sample_rng = random.Random(seed)
         self._nsample_seen = 0
@@ -91,6 +92,10 @@ class Ctx:
                 for v in vals:
                     d[str(v)] = d.get(str(v), 0) + 1
         for v in res.get("violations", ()):
+            n = self.viol_counts.get(v.get("sig"), 0)
+            self.viol_counts[v.get("sig")] = n + 1
+            if n >= 300:
+                continue
             v = dict(v)
             v.setdefault("case", case)
             self.violations.append(v)
@@ -267,8 +272,8 @@ def main(argv=None):
             print("VIOLATION property=%s replay=%s" % (pid, path))
             print("  oracle=%s sig=%s\n  %s" % (v.get("oracle"), v.get("sig"), str(v.get("msg"))[:600]))
             shown += 1
-        if len(vs) > 3:
-            print("  (+%d more cases with sig=%s)" % (len(vs) - 3, sig))
+        if ctx.viol_counts.get(sig, len(vs)) > 3:
+            print("  (+%d more cases with sig=%s)" % (ctx.viol_counts.get(sig, len(vs)) - 3, sig))
     if not args.no_evidence:
         report.write_evidence(ctx, mod, wall, new, known)
     print(
